@@ -2,7 +2,7 @@
 # wave 13: own-property check (plus the history check for two changes that need a call sequence)
 export VERIF_REPLAY_DIR=/tmp/run_seed.replays VERIF_EVIDENCE_DIR=/tmp/run_seed.evidence
 cd /verif
-declare -A EXTRA=()
+declare -A EXTRA=([C03-w13m2]="C13" [C08-w13m1]="C11" [C13-w13m2]="C06")
 for d in ${DIRS:-seeded/*-w13m*/}; do
   id=$(basename $d); prop=${id%%-*}
   echo "{" > $d/result.tmp; first=1
